@@ -614,3 +614,26 @@ Proof.
     + destruct (ilen a <? ilen b); reflexivity.
     + symmetry. apply not_true_is_false. intros E. apply bytes_eqb_eq in E. subst. lia.
 Qed.
+
+(* ------------------------------------------------------------------ a fresh identifier *)
+Lemma ident_init_ok sz : 16 <= sz ->
+  exists id, ident_init sz = Some id /\ idok heap0 id [] /\ external id = false /\
+             ilen id = 0 /\ ics id = 0%N /\ imax id = Nat.min (sz - 4) 252.
+Proof.
+  intros H. unfold ident_init, HSZE, IDENT_MAX.
+  destruct (Nat.ltb_spec sz 4); [lia|].
+  eexists. split; [reflexivity|].
+  assert (12 <= Nat.min (sz - 4) 252) by (apply Nat.min_glb; lia).
+  repeat split; cbn [ival imax ilen ics]; try reflexivity; try lia.
+  - apply zcells_length.
+  - intros X. discriminate.
+Qed.
+
+(* inline content does not depend on the heap *)
+Lemma idok_inline_heap h h' id d : external id = false -> idok h id d -> idok h' id d.
+Proof.
+  intros E (W & R & L & Nm). unfold idok, idrep in *. rewrite E in *. auto.
+Qed.
+
+Lemma set_nth_set_nth {A} (l : list A) i x y : set_nth (set_nth l i x) i y = set_nth l i y.
+Proof. revert i; induction l; intros [|i]; simpl; auto. f_equal; apply IHl. Qed.
